@@ -528,6 +528,42 @@ func runC07(c *eng.Ctx) {
 	runSlotSpecs(cr, map[string]bool{"valid": true, "captive": true}, func(idx int, s *Spec, m *Model, kind string) {
 		exec(idx, s, m, kind, false)
 	}, func(idx int, s *Spec) { c.R.End(idx, eng.Hash("c07-slot", s.Canon()), true) })
+	// --- ready values as the depended-on registration: a value registered with AddScoped (plain,
+	// keyed, in a group, under an alias, under an alias and a key) is a scoped registration like
+	// any other; every consumer lifetime x every value lifetime ---
+	for _, vl := range lifes {
+		for _, cl := range lifes {
+			vforms := []struct {
+				val  Reg
+				cons string
+			}{
+				{Reg{Ctor: -1, Value: "K0", Life: vl}, "InU_2_1_Plain"},
+				{Reg{Ctor: -1, Value: "K0", Life: vl, Name: "k"}, "InU_2_1_Keyed"},
+				{Reg{Ctor: -1, Value: "K0", Life: vl, Group: "g"}, "InU_2_1_Group"},
+				{Reg{Ctor: -1, Value: "K0", Life: vl, As: []string{"IK0"}}, "InU_2_1_Iface"},
+				{Reg{Ctor: -1, Value: "K0", Life: vl, As: []string{"IK0", "IA"}}, "InU_2_1_Iface"},
+				{Reg{Ctor: -1, Value: "K0", Life: vl}, "InU_2_1_Opt"},
+			}
+			for _, vf := range vforms {
+				idx, mine := cr.next()
+				if !mine {
+					continue
+				}
+				s := &Spec{Regs: []Reg{vf.val, mkReg(vf.cons, cl)}}
+				if idx%2 == 1 {
+					s.Regs[0], s.Regs[1] = s.Regs[1], s.Regs[0]
+				}
+				m := NewModel(s)
+				if m.Class != ClsOK && m.Class != ClsLifetime {
+					panic(fmt.Sprintf("harness fixture of C07 (ready values, %s) has model class %s", vf.cons, m.Class))
+				}
+				c.R.Begin(idx)
+				c.R.Count("value_provider_specs", 1)
+				exec(idx, s, m, "value-provider", true)
+				c.R.End(idx, eng.Hash("c07-value", s.Canon()), true)
+			}
+		}
+	}
 	// --- directed: registrations with several identities of which one was removed again ---
 	rm := func(t, key string) Reg { return Reg{Remove: true, RmType: t, RmKey: key, Tail: true} }
 	var directed []*Spec
